@@ -12,6 +12,7 @@ package main
 //	0  a bare spine.FunctionData (from the factory): UpdateDataAny / DataCopyAny
 //	2  a FeatureRemote of a connected peer: UpdateData / DataCopy, inbound notify (wire=1) and reply (wire=2)
 //	3  a FeatureLocal (server): UpdateData, SetData (persist=2) / DataCopy, inbound write of a bound peer (wire=1, remote=1)
+//	5  the EntityLocal use-case operations against kept DataCopy results (usecase.go; runtime oracle only)
 //
 // The stack set-up mirrors harness/upd/world.go (which serves C02/C04).
 
@@ -80,6 +81,8 @@ type world struct {
 	evMu   sync.Mutex
 	events []any
 	kept   []*retained
+
+	uc *ucWorld // family 5 (usecase.go)
 }
 
 func newWorld(types []*upd.TypeInfo) *world { return &world{types: types} }
@@ -98,6 +101,7 @@ func (w *world) HandleEvent(p api.EventPayload) {
 }
 
 func (w *world) Close() {
+	w.closeUseCases()
 	if w.local != nil {
 		_ = spine.VerifStackUnsubscribeCore(w)
 		_ = spine.VerifStackUnsubscribeCore(w.local)
@@ -446,6 +450,10 @@ func (w *world) Exec(op hx.Zs) (out []hx.Zs) {
 	switch r.n() {
 	case 0:
 		ty, fam := int(r.n()), int(r.n())
+		if fam == 5 {
+			w.initUseCases()
+			return nil
+		}
 		if ty < 0 || ty >= len(w.types) || fam < 0 || fam > 4 {
 			return []hx.Zs{{97}}
 		}
@@ -457,6 +465,11 @@ func (w *world) Exec(op hx.Zs) (out []hx.Zs) {
 		}
 		w.init(ty, fam)
 		return nil
+	case 3, 4:
+		if w.uc == nil {
+			return []hx.Zs{{97}}
+		}
+		return w.execUseCase(op)
 	case 2:
 		if w.ti == nil {
 			return []hx.Zs{{97}}
